@@ -1,4 +1,23 @@
+//! vf-nexus: checks of the cognitive nexus (`anda_cognitive_nexus`): C17–C20.
+//!
+//! `vf-nexus <Cxx> <quick|thorough|replay FILE>`; one module per property,
+//! shared helpers in `common`.
+mod c20;
+mod common;
+
+use vf_core::Runner;
+
 fn main() {
-    eprintln!("vf-nexus: not built yet");
-    std::process::exit(2);
+    let prop = std::env::args().nth(1).unwrap_or_default();
+    match prop.as_str() {
+        "C20" => {
+            let mut r = Runner::from_env("C20", "exploration");
+            c20::run(&mut r);
+            r.finish();
+        }
+        other => {
+            eprintln!("usage: vf-nexus <C20> <quick|thorough|replay FILE> (got {other:?})");
+            std::process::exit(2);
+        }
+    }
 }
